@@ -68,7 +68,7 @@ func (g *gen) h2(a *aresp, method, mode, segK string, declare bool) *exch {
 }
 
 func (g *gen) h3(a *aresp, method, mode string, declare bool) *exch {
-	o := &h3opts{Declare: declare, DeclareTr: g.rng.Chance(60)}
+	o := &h3opts{Declare: declare, DeclareTr: g.rng.Chance(60), Short: -1}
 	planH3(g.rng, a, o, method)
 	x := &exch{Proto: "h3", A: a, H3: o, Method: method, Mode: mode, SegK: "quic", Pat: hk.Pick(g.rng, patterns)}
 	g.xs = append(g.xs, x)
@@ -468,6 +468,27 @@ func (g *gen) build() {
 			}
 		}
 	}
+	// T. round 7: HTTP/3 responses whose stream ends (FIN) INSIDE a DATA frame, without and with a declared length;
+	//    arrival timing as a dimension: partial data and FIN written together or the FIN 40 ms later, the caller
+	//    reading at once or 60 ms late (data and FIN both at the client before the first Read).  Also complete
+	//    responses through the same frame-level origin.
+	for i, n := 0, r.Scale(36, 360); i < n; i++ {
+		a := g.muxAresp(hk.Pick(rng, []int{1, 17, 600, 4096, 20000}), rng.Intn(3))
+		for !bodyAllowed(a.Code) || a.Code >= 300 && a.Code < 400 {
+			a = g.muxAresp(hk.Pick(rng, []int{1, 17, 600, 4096, 20000}), rng.Intn(3))
+		}
+		a.Interim, a.Trailers = nil, nil
+		x := g.h3(a, "GET", hk.Pick(rng, modes), i%3 == 0)
+		x.H3.Raw = true
+		if i%6 != 5 { // cut inside the last DATA frame
+			last := x.H3.Parts[len(x.H3.Parts)-1]
+			x.H3.Short = hk.Pick(rng, []int{0, last / 2, last - 1})
+			x.Cut = true
+			x.CutAt = len(a.Body) - last + x.H3.Short
+		}
+		x.H3.FinLaterMs = []int{0, 0, 40}[i%3]
+		x.DelayMs = []int{0, 60}[(i/3)%2]
+	}
 	// K. output files as state across exchanges
 	for i, n := 0, r.Scale(16, 300); i < n; i++ {
 		g.files = append(g.files, genFileScenario(rng, i, filepath.Join(r.OutDir, "dl")))
@@ -540,6 +561,12 @@ func runC02(r *hk.Run) {
 		return
 	}
 	defer srv3.srv.Close()
+	rawH3, err = newH3Raw()
+	if err != nil {
+		r.Fail(hk.Failure{Sig: "harness:h3raw-setup", What: "frame-level HTTP/3 origin could not be set up: " + err.Error()})
+		return
+	}
+	defer rawH3.stop()
 
 	const workers = 8
 	var wg sync.WaitGroup
